@@ -311,6 +311,11 @@ func Ring(t *rapid.T, o *TreeOpts, stride int) [][]model.F {
 		out[i] = Coord(t, stride, o.Floats)
 	}
 	out[n] = append([]model.F{}, out[0]...)
+	// a ring of measured data returns to its first vertex in x, y and z, with an M (the
+	// last ordinate of four or more) of its own
+	if stride >= 4 && pct(t, 25, "ownclosingm") {
+		out[n][stride-1] = Float(t, o.Floats)
+	}
 	return out
 }
 
